@@ -31,6 +31,7 @@ class Crash(BaseException):
 def reset(state: Optional[Dict[str, Optional[str]]] = None) -> None:
     global CRASH_AT, CRASH_BYTES
     FS.clear()
+    _OsStub._fds.clear() if "_OsStub" in globals() else None
     POISON.clear()
     MTIME.clear()
     del LOG[:]
@@ -360,6 +361,91 @@ class _OsStub:
         @staticmethod
         def exists(p):
             return str(p) in FS
+
+        @staticmethod
+        def isfile(p):
+            return str(p) in FS and FS[str(p)] is not None
+
+        @staticmethod
+        def isdir(p):
+            return str(p) in FS and FS[str(p)] is None
+
+        @staticmethod
+        def join(a, *more):
+            import posixpath
+            return posixpath.join(str(a), *[str(m) for m in more])
+
+        @staticmethod
+        def dirname(p):
+            return _parent(str(p))
+
+        @staticmethod
+        def basename(p):
+            return str(p)[str(p).rfind("/") + 1:]
+
+    # ---- file-descriptor level calls (POSIX semantics on the model: O_CREAT without O_TRUNC keeps the old content)
+    O_RDONLY, O_WRONLY, O_RDWR, O_CREAT, O_EXCL, O_TRUNC, O_APPEND = 0, 1, 2, 64, 128, 512, 1024
+    _fds: dict = {}
+
+    @staticmethod
+    def fspath(p):
+        return str(p)
+
+    @staticmethod
+    def open(path, flags, mode=0o777, *a, **k):
+        p = str(path)
+        if p in FS and FS[p] is None:
+            raise IsADirectoryError(p)
+        if p in POISON and isinstance(POISON[p], OSError):
+            raise POISON[p]
+        if p not in FS:
+            if not flags & _OsStub.O_CREAT:
+                raise FileNotFoundError(p)
+            _ensure_parents_exist(p)
+            _effect(f"create {p}")
+            FS[p] = ""
+            _touch(p)
+        elif flags & _OsStub.O_CREAT and flags & _OsStub.O_EXCL:
+            raise FileExistsError(p)
+        elif flags & _OsStub.O_TRUNC and (flags & 3):
+            _effect(f"create/truncate {p}")
+            FS[p] = ""
+            _touch(p)
+        fd = 3 + len(_OsStub._fds)
+        while fd in _OsStub._fds:
+            fd += 1
+        h = _Handle(p, "r+" if flags & 3 else "r")
+        if flags & _OsStub.O_APPEND:
+            h.pos = len(FS[p] or "")
+        _OsStub._fds[fd] = h
+        return fd
+
+    @staticmethod
+    def write(fd, data):
+        h = _OsStub._fds[fd]
+        text = data.decode("utf-8") if isinstance(data, (bytes, bytearray)) else str(data)
+        h.write(text)
+        return len(data)
+
+    @staticmethod
+    def read(fd, n):
+        return _OsStub._fds[fd].read(n).encode("utf-8")
+
+    @staticmethod
+    def ftruncate(fd, size):
+        _OsStub._fds[fd].truncate(size)
+
+    @staticmethod
+    def close(fd):
+        _OsStub._fds.pop(fd, None)
+
+    @staticmethod
+    def makedirs(p, mode=0o777, exist_ok=False):
+        MemPath(str(p)).mkdir(parents=True, exist_ok=exist_ok)
+
+    @staticmethod
+    def mkdir(p, mode=0o777):
+        MemPath(str(p)).mkdir()
 
 
 def install() -> None:
